@@ -1,4 +1,7 @@
 """C05 — the four operations are mutually consistent on the same operands."""
+from fractions import Fraction as F
+
+from . import boolcheck as bc
 from . import relprops, relrun
 LEVEL = 'proof'
 W = {'rect': 0.25, 'oct': 0.3, 'share': 0.15, 'lat': 0.1, 'gp': 0.15, 'self': 0.05, 'boxes': 0.1, 'straddle': 0.05, 'abut': 0.15, 'punch': 0.08, 'frameslab': 0.12}
@@ -9,3 +12,43 @@ def run(rep, tier, seed):
                    'each group = the five calls I, U, X, A-B, B-A on one operand pair; the partition law is decided for every point by '
                    'the verified checker (tolerant oracle only when a result has rounded coordinates); area identities exact (rational) '
                    'on the exact class, 1e-9 relative otherwise.')
+    if rep.violations:
+        return
+    # one LARGE operand pair (a lattice comb against a small rectangle: more than 2^16 result events in a single operation,
+    # integer coordinates, every crossing an integer): the area identities, exact in rational arithmetic
+    n = 9000 if tier == 'quick' else 30000
+    comb = [(0.0, 0.0)]
+    for i in range(n):
+        comb += [(2.0 * i + 1.0, 0.0), (2.0 * i + 1.0, 4.0), (2.0 * i + 2.0, 4.0), (2.0 * i + 2.0, 0.0)]
+    comb += [(2.0 * n + 1.0, 0.0), (2.0 * n + 1.0, -2.0), (0.0, -2.0)]
+    a = ('M', [[comb]])
+    b = ('M', [[[(3.0, 1.0), (2.0 * n - 3.0, 1.0), (2.0 * n - 3.0, 3.0), (3.0, 3.0)]]])
+    cases = {k: bc.Case('L' + k, 'big', 64, op, x, y) for k, (op, x, y) in
+             {'I': ('I', a, b), 'U': ('U', a, b), 'X': ('X', a, b), 'D': ('D', a, b), 'E': ('D', b, a)}.items()}
+    res = bc.run_impl(list(cases.values()), 'r', timeout=900)
+
+    def ring_area(r):
+        s2 = F(0)
+        for (x0, y0), (x1, y1) in zip(r, r[1:] + r[:1]):
+            s2 += F(x0) * F(y1) - F(x1) * F(y0)
+        return abs(s2) / 2
+
+    def area(mp):
+        return sum(ring_area(p[0]) - sum(ring_area(h) for h in p[1:]) for p in mp)
+    bad = [k for k, c in cases.items() if res[c.cid][0] != 'ok']
+    if bad:
+        rep.violation('C05: operation %s on the large comb (%d vertices) did not return normally: %s' % (bad[0], 4 * n + 4, res[cases[bad[0]].cid][0]),
+                      {'generator': 'c05 large comb', 'teeth': n, 'operation': bad[0]})
+        return
+    ar = {k: area(res[c.cid][1]) for k, c in cases.items()}
+    aa, ab = area(a[1]), area(b[1])
+    ident = {'I+U=A+B': ar['I'] + ar['U'] == aa + ab, 'X=U-I': ar['X'] == ar['U'] - ar['I'], 'A-B=A-I': ar['D'] == aa - ar['I'],
+             'B-A=B-I': ar['E'] == ab - ar['I'], 'X=(A-B)+(B-A)': ar['X'] == ar['D'] + ar['E']}
+    rep.coverage['large_comb'] = {'teeth': n, 'vertices': 4 * n + 4, 'areas': {k: float(v) for k, v in ar.items()},
+                                  'identities': {k: bool(v) for k, v in ident.items()}}
+    wrong = [k for k, v in ident.items() if not v]
+    if wrong:
+        rep.violation('C05: on a lattice comb with %d teeth against a rectangle the area identity %s fails exactly (areas %s)'
+                      % (n, wrong[0], {k: float(v) for k, v in ar.items()}),
+                      {'generator': 'c05 large comb', 'teeth': n, 'failing_identities': wrong,
+                       'areas': {k: str(v) for k, v in ar.items()}, 'area_A': str(aa), 'area_B': str(ab)})
